@@ -537,6 +537,10 @@ func (e *Exec) constVal(x *ssa.Const) Value {
 	if x.Value.Kind() == constant.String {
 		return mkStr(constant.StringVal(x.Value))
 	}
+	if b, ok := t.Underlying().(*types.Basic); ok && b.Info()&types.IsFloat != 0 {
+		f, _ := constant.Float64Val(constant.ToFloat(x.Value))
+		return FloatV{f}
+	}
 	panic(engineErr("unsupported constant %s", x.String()))
 }
 
@@ -1696,9 +1700,44 @@ func isInvalid(t types.Type) bool {
 	return ok && b.Kind() == types.Invalid
 }
 
+func isFloatType(t types.Type) bool {
+	b, ok := t.Underlying().(*types.Basic)
+	return ok && b.Info()&types.IsFloat != 0
+}
+
 func (e *Exec) convert(s *State, fr *Frame, in *ssa.Convert) bool {
 	xv := e.val(fr, s, in.X)
 	tw := width(in.Type())
+	// floating point: concrete operands only
+	if isFloatType(in.Type()) {
+		switch x := xv.(type) {
+		case FloatV:
+			if in.Type().Underlying().(*types.Basic).Kind() == types.Float32 {
+				fr.regs[in] = FloatV{float64(float32(x.f))}
+			} else {
+				fr.regs[in] = x
+			}
+			return true
+		case *Term:
+			if !x.isConst() {
+				panic(engineErr("conversion of a symbolic integer to floating point (unsupported) in %s", fr.fn.String()))
+			}
+			if signed(in.X.Type()) {
+				fr.regs[in] = FloatV{float64(sx(x.val, x.w))}
+			} else {
+				fr.regs[in] = FloatV{float64(x.val)}
+			}
+			return true
+		}
+	}
+	if fv, ok := xv.(FloatV); ok && tw > 0 {
+		if signed(in.Type()) {
+			fr.regs[in] = C(tw, uint64(int64(fv.f)))
+		} else {
+			fr.regs[in] = C(tw, uint64(fv.f))
+		}
+		return true
+	}
 	x, isT := xv.(*Term)
 	if tw < 0 || !isT {
 		dst := in.Type().Underlying()
@@ -1768,6 +1807,28 @@ func (e *Exec) binop(s *State, fr *Frame, in *ssa.BinOp, x, y Value) (Value, boo
 			return Not(r), true
 		}
 		return r, true
+	}
+	if fa, ok := x.(FloatV); ok {
+		fb := y.(FloatV)
+		switch in.Op {
+		case token.ADD:
+			return FloatV{fa.f + fb.f}, true
+		case token.SUB:
+			return FloatV{fa.f - fb.f}, true
+		case token.MUL:
+			return FloatV{fa.f * fb.f}, true
+		case token.QUO:
+			return FloatV{fa.f / fb.f}, true
+		case token.LSS:
+			return B(fa.f < fb.f), true
+		case token.LEQ:
+			return B(fa.f <= fb.f), true
+		case token.GTR:
+			return B(fa.f > fb.f), true
+		case token.GEQ:
+			return B(fa.f >= fb.f), true
+		}
+		panic(engineErr("floating-point operation %s", in.Op))
 	}
 	if sa, ok := x.(StrV); ok {
 		sb := y.(StrV)
@@ -1897,6 +1958,8 @@ func (e *Exec) valueEq(x, y Value) *Term {
 	switch a := x.(type) {
 	case *Term:
 		return Cmp("eq", a, term(y))
+	case FloatV:
+		return B(a.f == y.(FloatV).f)
 	case ErrV:
 		switch b := y.(type) {
 		case ErrV:
